@@ -130,6 +130,9 @@ func (f *MakeArray) Call(s *slip.Scope, args slip.List, depth int) slip.Object {
 		case nil:
 			fillPtr = -1
 		case slip.Fixnum:
+			if to < 0 || len(dims) != 1 || dims[0] < int(to) {
+				slip.TypePanic(s, depth, ":fill-pointer", to, "fixnum between 0 and the length of the vector")
+			}
 			fillPtr = int(to)
 		default:
 			if 0 < len(dims) {
